@@ -3,10 +3,13 @@
     jsemit  <schemas-id> <pkg> js|oa                     →  ok <json> | hang | panic | nopkg | unsup-value
     jsvalid <schemas-id> <pkg> <object> <json-sexp>      →  valid | invalid | hang | nopkg | bad-json
     jshyp   <go-id> <js-id> <pkg> <object> <json-sexp>   →  n=<fuel> describes=<b> den=<b> sat=<b> dec=<ok|err|unsup|fuel> valid=<b>
-    jswf    <schemas-id> <pkg>                           →  emitclosed=<b> noclash=<b> keyed=<b> terminates=<b>
+    jswf    <schemas-id> <pkg>                           →  emitclosed=<b> noclash=<b> terminates=<b>
+    jsself  <go-id> <js-id> <pkg>                        →  jsfrag=<b> samedefs=<b>   (hypotheses of C12_values_validate_same_ir_partial
+                                                             for S := the Go-chain IR: on the fragment, and emitting the same definitions)
 -/
 import Cog.Sem.JsonSchemaOutDescribes
 import Cog.Sem.JsonSchemaOutWf
+import Cog.Sem.JsonSchemaOutFrag
 import Cog.Drv.SchemaStore
 namespace Cog.Drv
 open Cog Cog.IR Cog.Sem Cog.Sem.JSOut
@@ -145,6 +148,22 @@ def jswfLine (rest : String) : IO String := do
       | none => return "nopkg"
       | some s =>
         return s!"emitclosed={b2 (emitClosed ss s)} noclash={b2 (noClash ss s)} terminates={b2 (emitDefs (closureFuel ss) ss s).isSome}"
+  | _ => return "bad-request"
+
+def jsselfLine (rest : String) : IO String := do
+  match rest.splitOn " " with
+  | [goid, jsid, pkg] =>
+    match ← getSchemas goid, ← getSchemas jsid with
+    | some sgo, some sjs =>
+      match findSchema sgo pkg, findSchema sjs pkg with
+      | some g, some s =>
+        let same := match emitDefs (closureFuel sgo) sgo g, emitDefs (closureFuel sjs) sjs s with
+          | some a, some b => jsBeqKvs a b
+          | _, _ => false
+        -- `Schemas.locate S pkg = some s` holds by construction: findSchema returns the first schema of that package
+        return s!"jsfrag={b2 (jsFrag sgo g)} samedefs={b2 same}"
+      | _, _ => return "nopkg"
+    | _, _ => return "unknown-schemas"
   | _ => return "bad-request"
 
 end Cog.Drv
